@@ -363,7 +363,7 @@ func ledgerMain(s ledgerSpec, args []string) int {
 				return strings.HasPrefix(ev, "P:") || strings.HasPrefix(ev, "X:") || strings.HasPrefix(ev, "Y:")
 			}}
 	}
-	budgetQ, budgetT := 150*time.Second, 40*time.Minute
+	budgetQ, budgetT := 150*time.Second, 25*time.Minute
 	deadline := common.Deadline(budgetQ, budgetT)
 	total := &space.Stats{Exhaustive: true, Counters: map[string]int{}, PerKind: map[string]int{}, Results: map[string]int{}}
 	perRun := map[string]any{}
